@@ -31,7 +31,7 @@ def install(g, ID, n_quick, n_thorough, profiles=None):
     def hooks(w, ctx):
         findings_sim.install_exclusions(w, ctx, ID)
 
-    def run(tier, seed):
+    def _random(tier, seed):
         n = n_quick if tier == "quick" else n_thorough
         if not profiles:
             return run_sim(ID, tier, seed, n)
@@ -42,6 +42,23 @@ def install(g, ID, n_quick, n_thorough, profiles=None):
                 acc = a
             else:
                 acc.merge(a, sample_cap=8)
+        return acc
+
+    def sweep_profile(tier):
+        P = dict(g["profile"](tier))
+        P.update(max_threads=min(P.get("max_threads", 3), 2), max_ops=min(P.get("max_ops", 8), 5), max_workers=min(P.get("max_workers", 4), 2),
+                 schedule_kinds=["default"], max_faults=min(P.get("max_faults", 0), 1), max_inflight=3, max_resizes=2)
+        return P
+
+    g.setdefault("sweep_profile", sweep_profile)
+
+    def run(tier, seed):
+        acc = _random(tier, seed)
+        sw = g.get("SWEEP")
+        if sw:
+            from sim.sweep import run_sweep
+            a = run_sweep(ID, tier, seed, sw[0] if tier == "quick" else sw[1])
+            acc.merge(a, sample_cap=8)
         return acc
 
     def replay(case, verbose=False):
